@@ -13,7 +13,7 @@ EVIDENCE = dict(
          "words). Real Note / Visualization / module / project objects are driven over complete old-word axes with "
          "sampled new values and complete new-value axes with sampled old words, every NOTECMD x velocity x boundary "
          "16-bit values for the cell codec, random pattern byte images for the row-major identity (also through a "
-         "written file), and the file-only packed words SMII / SFGS; Trace_RVWords compares each result with "
+         "written file, and again after cells were edited through previously handed-out note objects), and the file-only packed words SMII / SFGS; Trace_RVWords compares each result with "
          "SetSub/GetSub/NoteBytes/Image. evaluations = (object, setter, value) executions; non-trivial = old "
          "sub-field value non-zero or result differs from old word.",
     explanation="array events: one event carries a whole axis")
@@ -149,7 +149,8 @@ def run(ctx):
             image += list(struct.pack("<BBHHH", *c))
         pat = api.Pattern(tracks=tracks, lines=lines)
         pat.raw_data = bytes(image)
-        cl = [[int(x.note), x.vel, x.module, x.ctl, x.val] for line in pat.data for x in line]
+        held = [x for line in pat.data for x in line]
+        cl = [[int(x.note), x.vel, x.module, x.ctl, x.val] for x in held]
         back = list(pat.raw_data)
         p = api.Project()
         p.attach_pattern(pat)
@@ -159,9 +160,29 @@ def run(ctx):
         vers = rnd.choice([[2, 1, 2, 1], [2, 1, 2, 1], [1, 9, 5, 0], [1, 9, 5, 1], [2, 0, 0, 0], [1, 9, 4, 255], [1, 7, 0, 0], [1, 10, 0, 0]])
         data = tlv.join([(cid, bytes(reversed(vers)) if cid == b"VERS" else pl) for cid, pl in tlv.split(data)])
         p2 = api.read_sunvox_file(io.BytesIO(data))
-        events.append({"op": "pattern", "lines": lines, "tracks": tracks, "image": image, "cells": cl, "back": back, "vers": vers,
+        events.append({"op": "pattern", "lines": lines, "tracks": tracks, "image": list(image), "cells": cl, "back": back, "vers": vers,
                        "pdta": pdta[0] if pdta else [], "reloaded": list(p2.patterns[0].raw_data)})
         ctx.count_case(("pattern", k, lines, tracks, hash(bytes(image))), nontrivial=True)
+        # history on the same pattern: cells edited through note objects handed out BEFORE the save (no further access to
+        # pattern.data), then image, file and reload again - the byte image is the cells, not a memo of the last save
+        ncell = lines * tracks
+        for j in rnd.sample(range(ncell), min(ncell, rnd.randrange(1, 4))):
+            c = [rnd.choice(cmds), rnd.randrange(130), rnd.randrange(65536), rnd.randrange(65536), rnd.randrange(65536)]
+            x = held[j]
+            if rnd.random() < 0.5:
+                x.note, x.vel, x.module, x.ctl, x.val = api.NOTECMD(c[0]), c[1], c[2], c[3], c[4]
+            else:                                   # through the sub-field setters
+                x.note, x.vel, x.module = api.NOTECMD(c[0]), c[1], c[2]
+                x.controller, x.effect, x.val_xx, x.val_yy = c[3] >> 8, c[3] & 255, c[4] >> 8, c[4] & 255
+            image[j * 8:j * 8 + 8] = list(struct.pack("<BBHHH", *c))
+        back2 = list(pat.raw_data)
+        data2 = p.read()
+        pdta2 = [list(pl) for cid, pl in tlv.split(data2) if cid == b"PDTA"]
+        p3 = api.read_sunvox_file(io.BytesIO(data2))
+        events.append({"op": "pattern", "lines": lines, "tracks": tracks, "image": list(image),
+                       "cells": [[int(x.note), x.vel, x.module, x.ctl, x.val] for x in held], "back": back2, "vers": [2, 1, 2, 1],
+                       "pdta": pdta2[0] if pdta2 else [], "reloaded": list(p3.patterns[0].raw_data)})
+        ctx.count_case(("pattern-edited", k, hash(bytes(image))), nontrivial=True)
     # ---- file-only packed words
     for always in (False, True):
         for ch in list(range(0, 18)) + ([31, 255] if not q else []):
@@ -172,14 +193,14 @@ def run(ctx):
             words = [struct.unpack("<I", pl)[0] for cid, pl in tlv.split(data) if cid == b"SMII"]
             m2 = api.read_sunvox_file(io.BytesIO(data)).modules[1]
             events.append({"op": "packed", "word": "smii", "fields": [["smii_always", int(always)], ["smii_channel", ch]],
-                           "fileword": words[1], "loaded": [["smii_always", int(m2.midi_in_always)], ["smii_channel", int(m2.midi_in_channel)]]})
+                           "fileword": words[1] if len(words) > 1 else -1, "loaded": [["smii_always", int(m2.midi_in_always)], ["smii_channel", int(m2.midi_in_channel)]]})
             ctx.count_case(("smii", always, ch), nontrivial=always or ch)
     for a in range(8):
         for b in range(8):
             p = api.Project()
             p.receive_sync_midi, p.receive_sync_other = a, b
             data = p.read()
-            w = [struct.unpack("<I", pl)[0] for cid, pl in tlv.split(data) if cid == b"SFGS"][0]
+            w = ([struct.unpack("<I", pl)[0] for cid, pl in tlv.split(data) if cid == b"SFGS"] + [-1])[0]      # -1: chunk absent
             p2 = api.read_sunvox_file(io.BytesIO(data))
             events.append({"op": "packed", "word": "sfgs", "fields": [["sfgs_midi", a], ["sfgs_other", b]], "fileword": w,
                            "loaded": [["sfgs_midi", int(p2.receive_sync_midi)], ["sfgs_other", int(p2.receive_sync_other)]]})
